@@ -34,6 +34,9 @@ pub struct Env {
     /// Latin back-spellings of words of the SMALL dictionary (so they hit in every
     /// data profile that has a dictionary).
     pub dict_spellings: Vec<String>,
+    /// Back-spellings of dictionary words (of the SMALL cut) that end in KHANDA TA or ANUSVARA:
+    /// where two of the three suffix-joining rules apply.
+    pub joining_spellings: Vec<String>,
     /// Latin words with many candidates (long lists), measured lazily by generators.
     /// All emoticons / English emoji names / Bengali emoji names of the emojicon tables
     /// (extracted from the pinned crate's sources into sim/data/), common ones first.
@@ -336,6 +339,14 @@ impl Env {
             .collect();
         dict_spellings.sort();
         dict_spellings.dedup();
+        let mut joining_spellings: Vec<String> = kept
+            .iter()
+            .filter(|w| w.ends_with('\u{09CE}') || w.ends_with('\u{0982}'))
+            .filter_map(|w| back_spell(w))
+            .filter(|s| s.len() <= 12 && s.chars().all(|c| c.is_ascii_alphabetic()))
+            .collect();
+        joining_spellings.sort();
+        joining_spellings.dedup();
         if dict_spellings.len() < 100 {
             return Err(format!(
                 "only {} dictionary spellings harvested",
@@ -354,6 +365,7 @@ impl Env {
             autocorrect_words,
             autocorrect_keys,
             dict_spellings,
+            joining_spellings,
             emoticons: {
                 let mut v = vec![":)", ";)", ":(", ":D", ":P", "<3", ":'(", ":|", ":o", "B)", ":*", "-_-", ">:(", ":-)", "^_^", "</3", ":3", "o.O"];
                 v.extend(include_str!("../data/emoticons.txt").lines().filter(|l| !l.is_empty()));
